@@ -2689,8 +2689,10 @@ impl KnowledgeGraph {
         // 4. Drop any associated rules (ignore error if no rules)
         let _ = self.rule_catalog.drop(name);
 
-        // 5. Remove from IncrementalEngine (both base data and rule)
+        // 5. Remove from IncrementalEngine (both base data and rule); whatever was derived
+        //    from the relation's tuples or rules is stale now
         if let Some(ref dd) = self.incremental {
+            let _ = dd.notify_base_update(name);
             let _ = dd.remove_rule(name);
         }
 
@@ -4298,6 +4300,22 @@ mod tests {
         materialize(&storage, "upper");
         kg_lock.write().drop_rule("lower").unwrap();
         assert!(!is_materialized(&storage, "upper"));
+    }
+
+    #[test]
+    fn test_drop_relation_invalidates_dependents() {
+        let temp = tempfile::TempDir::new().unwrap();
+        let storage = storage_with_base_fact(&temp, true);
+        let kg_lock = storage.knowledge_graphs.get("default").unwrap();
+
+        kg_lock
+            .write()
+            .register_rule(&make_simple_rule_def("derived", "base"))
+            .unwrap();
+        materialize(&storage, "derived");
+
+        kg_lock.write().drop_relation("base").unwrap();
+        assert!(!is_materialized(&storage, "derived"));
     }
 
     #[test]
